@@ -63,6 +63,7 @@ class VThread:
         "is_main",
         "last_k",
         "stopped",
+        "xproc",
     )
 
     def __repr__(self) -> str:
@@ -141,6 +142,7 @@ class World:
         self.opts: dict = {}
         self.children: list = []
         self._sync_fp = 0
+        self.local_reduction = True
 
     # -- bookkeeping ---------------------------------------------------
     def log(self, *ev) -> None:
@@ -170,6 +172,7 @@ class World:
         t.is_main = is_main
         t.last_k = -1
         t.stopped = False
+        t.xproc = True
         t.g = greenlet.greenlet(lambda: self._thread_main(t, fn, args), parent=self.root)
         self.threads.append(t)
         proc.threads.append(t)
@@ -222,16 +225,27 @@ class World:
         d = t.deadline
         return d is not None and d <= self.now
 
-    def _others_enabled(self, me: VThread) -> bool:
+    def _others_enabled(self, me: VThread, xproc: bool = True) -> bool:
+        if not xproc and self.local_reduction:
+            mp = me.proc
+            for t in self.threads:
+                if t is not me and t.proc is mp and self._is_enabled(t):
+                    return True
+            return False
         for t in self.threads:
             if t is not me and self._is_enabled(t):
                 return True
         return False
 
-    def point(self, label: str, pred=None, timeout: float | None = None, level: str = SYNC) -> bool:
+    def point(self, label: str, pred=None, timeout: float | None = None, level: str = SYNC, xproc: bool = False) -> bool:
         """scheduling point of the running virtual thread.
 
-        returns True when pred holds (or is None), False on time-out."""
+        returns True when pred holds (or is None), False on time-out.
+        ``xproc``: the pending operation is visible to other virtual processes
+        (pipe / socket / process-table operation).  At a process-local point only
+        threads of the same process are preemption candidates: a local step
+        commutes with every step of another process (no shared memory), so the
+        cross-process switch is explored at the next xproc / blocking point."""
         if self.teardown:
             raise Teardown()
         me = self.cur
@@ -250,20 +264,22 @@ class World:
         ok = pred is None or pred()
         if timeout is not None and timeout <= 0 and not ok:
             # non-blocking attempt: scheduling point, then immediate test
-            if self.exploring and self._others_enabled(me):
+            if self.exploring and self._others_enabled(me, xproc):
                 me.pred = None
                 me.deadline = None
                 me.label = label
                 me.level = level
+                me.xproc = xproc
                 self._yield(me)
             return pred()
         if ok and me.pending is None:
-            if not self.exploring or not self._others_enabled(me):
+            if not self.exploring or not self._others_enabled(me, xproc):
                 return True
         me.pred = pred
         me.deadline = None if timeout is None else self.now + timeout
         me.label = label
         me.level = level
+        me.xproc = xproc
         self._yield(me)
         me.deadline = None
         if pred is None:
@@ -296,8 +312,12 @@ class World:
         threads = self.threads
         while not self.teardown:
             cur = self.cur
-            en = [t for t in threads if t is not cur and self._is_enabled(t)]
             cur_en = cur is not None and self._is_enabled(cur)
+            if cur_en and not cur.xproc and self.local_reduction:
+                cp = cur.proc
+                en = [t for t in threads if t is not cur and t.proc is cp and self._is_enabled(t)]
+            else:
+                en = [t for t in threads if t is not cur and self._is_enabled(t)]
             if cur_en:
                 en.insert(0, cur)
             if not en:
@@ -622,9 +642,9 @@ class VPipeWriter:
         data = bytes(data)
         cap = p.capacity
         if cap is None:
-            w.point("pw:" + p.name)
+            w.point("pw:" + p.name, xproc=True)
         else:
-            w.point("pw:" + p.name, lambda: p.rclosed or len(p.buf) < cap)
+            w.point("pw:" + p.name, lambda: p.rclosed or len(p.buf) < cap, xproc=True)
         if self.closed:
             raise ValueError("write to closed file")
         if p.rclosed:
@@ -656,7 +676,7 @@ class VPipeWriter:
     def close(self) -> None:
         if self.closed:
             return
-        self.pipe.w.point("pclose-w:" + self.pipe.name)
+        self.pipe.w.point("pclose-w:" + self.pipe.name, xproc=True)
         self.closed = True
         self.pipe.wclosed = True
 
@@ -680,7 +700,7 @@ class VPipeReader:
             raise ValueError("read of closed file")
         if n == 0:
             return b""
-        w.point("pr:" + p.name, lambda: bool(p.buf) or p.wclosed or self.closed)
+        w.point("pr:" + p.name, lambda: bool(p.buf) or p.wclosed or self.closed, xproc=True)
         if self.closed:
             raise ValueError("read of closed file")
         if not p.buf:
@@ -689,7 +709,7 @@ class VPipeReader:
         if n is None or n < 0:
             # read to EOF
             while not p.wclosed:
-                w.point("pr:" + p.name, lambda: p.wclosed)
+                w.point("pr:" + p.name, lambda: p.wclosed, xproc=True)
             k = len(p.buf)
         else:
             k = min(n, avail)
@@ -708,7 +728,7 @@ class VPipeReader:
         w = p.w
         if self.closed:
             raise ValueError("read of closed file")
-        w.point("prl:" + p.name, lambda: (b"\n" in p.buf) or p.wclosed)
+        w.point("prl:" + p.name, lambda: (b"\n" in p.buf) or p.wclosed, xproc=True)
         i = p.buf.find(b"\n")
         k = len(p.buf) if i < 0 else i + 1
         out = bytes(p.buf[:k])
@@ -718,7 +738,7 @@ class VPipeReader:
     def close(self) -> None:
         if self.closed:
             return
-        self.pipe.w.point("pclose-r:" + self.pipe.name)
+        self.pipe.w.point("pclose-r:" + self.pipe.name, xproc=True)
         self.closed = True
         self.pipe.rclosed = True
 
@@ -768,7 +788,7 @@ class VPopen:
         w = parent.world
         self.args = list(args)
         n = len(w.procs)
-        w.point("popen")
+        w.point("popen", xproc=True)
         self.proc = proc = VProc(w, f"child{n}")
         proc.parent = parent
         pin = VPipe(w, f"p{n}.in")  # parent -> child
@@ -799,7 +819,7 @@ class VPopen:
 
     def wait(self, timeout=None):
         w = self.proc.world
-        ok = w.point("waitpid:" + self.proc.name, lambda: not self.proc.alive, timeout)
+        ok = w.point("waitpid:" + self.proc.name, lambda: not self.proc.alive, timeout, xproc=True)
         if not ok:
             raise TimeoutError("wait timed out")
         self.returncode = self.proc.exitcode
@@ -807,7 +827,7 @@ class VPopen:
 
     def kill(self) -> None:
         w = self.proc.world
-        w.point("kill:" + self.proc.name)
+        w.point("kill:" + self.proc.name, xproc=True)
         if self.proc.alive:
             self.proc.die(-9, "killed")
 
@@ -922,7 +942,7 @@ def _v_kill(pid: int, sig: int) -> None:
             break
     else:
         raise ProcessLookupError(3, "No such process")
-    w.point(f"os.kill:{sig}")
+    w.point(f"os.kill:{sig}", xproc=True)
     signal_proc(p, sig)
 
 
